@@ -258,3 +258,45 @@ Proof.
   - intros [H1 H2] [qx qy] Hq. apply in_prod_iff in Hq. destruct Hq as [Hqx Hqy]. simpl.
     specialize (H1 qx Hqx). specialize (H2 qy Hqy). lra.
 Qed.
+
+(* ---------- the start box loses nothing: with the four far corner sites at 10 m, the cell of a site with |p|_inf <= m
+   lies inside [-20 m, 20 m]^2 (in fact inside 100/9 m) ---------- *)
+Lemma box_x1 m p1 p2 x1 x2 : 0 < m -> - m <= p1 <= m -> - m <= p2 <= m ->
+  dist2 (x1, x2) (p1, p2) <= dist2 (x1, x2) (10 * m, 10 * m) ->
+  dist2 (x1, x2) (p1, p2) <= dist2 (x1, x2) (10 * m, - (10 * m)) ->
+  x1 <= 20 * m.
+Proof.
+  unfold dist2. simpl. intros Hm [P1 P1'] [P2 P2'] H1 H2.
+  destruct (Qlt_le_dec (20 * m) x1) as [C|C]; [|exact C]. exfalso.
+  destruct (Qlt_le_dec x2 0) as [N|N].
+  - assert (0 <= (x1 - 20 * m) * (10 * m - p1 - 9 * m)) by nra.
+    assert (0 <= (- x2) * (10 * m + p2)) by nra.
+    assert (p1 * p1 <= m * m) by nra. assert (p2 * p2 <= m * m) by nra. nra.
+  - assert (0 <= (x1 - 20 * m) * (10 * m - p1 - 9 * m)) by nra.
+    assert (0 <= x2 * (10 * m - p2)) by nra.
+    assert (p1 * p1 <= m * m) by nra. assert (p2 * p2 <= m * m) by nra. nra.
+Qed.
+
+Theorem cell_in_bigbox m p x : 0 < m -> - m <= fst p <= m -> - m <= snd p <= m ->
+  cell2 (corners m) p x ->
+  (- (20 * m) <= fst x <= 20 * m) /\ (- (20 * m) <= snd x <= 20 * m).
+Proof.
+  destruct p as [p1 p2], x as [x1 x2]. simpl fst. simpl snd. intros Hm P1 P2 H.
+  assert (dist2 (x1, x2) (p1, p2) <= dist2 (x1, x2) (- (10 * m), - (10 * m))) as Hmm by (apply H; simpl; auto).
+  assert (dist2 (x1, x2) (p1, p2) <= dist2 (x1, x2) (- (10 * m), 10 * m)) as Hmp by (apply H; simpl; auto).
+  assert (dist2 (x1, x2) (p1, p2) <= dist2 (x1, x2) (10 * m, - (10 * m))) as Hpm by (apply H; simpl; auto).
+  assert (dist2 (x1, x2) (p1, p2) <= dist2 (x1, x2) (10 * m, 10 * m)) as Hpp by (apply H; simpl; tauto).
+  assert (forall a b c d, dist2 (- a, b) (- c, d) == dist2 (a, b) (c, d)) as Nx by (intros; unfold dist2; simpl; ring).
+  assert (forall a b c d, dist2 (b, a) (d, c) == dist2 (a, b) (c, d)) as Sw by (intros; unfold dist2; simpl; ring).
+  assert (forall a b c d, dist2 (a, b) (- c, d) == dist2 (- a, b) (c, d)) as Nx' by (intros; unfold dist2; simpl; ring).
+  repeat split.
+  - assert (- x1 <= 20 * m) as K; [|lra].
+    apply (box_x1 m (- p1) p2 (- x1) x2); try lra; rewrite ?Nx; [rewrite <- Nx' | rewrite <- Nx']; rewrite ?Nx; assumption.
+  - apply (box_x1 m p1 p2 x1 x2); assumption.
+  - assert (- x2 <= 20 * m) as K; [|lra].
+    apply (box_x1 m (- p2) p1 (- x2) x1); try lra.
+    + rewrite Nx, Sw. rewrite <- Nx', Sw. rewrite <- (Sw x1 x2 (10 * m) (- (10 * m))) in Hpm.
+      unfold dist2 in *. simpl in *. lra.
+    + unfold dist2 in *. simpl in *. lra.
+  - apply (box_x1 m p2 p1 x2 x1); try lra; unfold dist2 in *; simpl in *; lra.
+Qed.
